@@ -215,6 +215,14 @@ MUTANTS = [
 """, "")], ["C20"]),
     ("fixrevert_d16_validity_of_unresolved_tree", [(CE, """        if any(tree.scan_values(lambda value: isinstance(value, Token) and value.type == "CONDITION_EXPRESSION")):""", """        if False and any(tree.scan_values(lambda value: isinstance(value, Token) and value.type == "CONDITION_EXPRESSION")):""")], ["C06"]),
     ("fixrevert_d17_shared_label_tokens", [(UTIL, """    tree_copied = type(tree)(copy.copy(tree.data), [], meta=getattr(tree, "_meta", None))""", """    tree_copied = type(tree)(tree.data, [], meta=getattr(tree, "_meta", None))"""), (UTIL, """                child_copied = type(child)(copy.copy(child.data), [], meta=getattr(child, "_meta", None))""", """                child_copied = type(child)(child.data, [], meta=getattr(child, "_meta", None))""")], ["C11"]),
+    ("fixrevert_d15b_offset_minutes_60_to_99", [(TAG, """    r"(?:[Zz]|[+-]\\d{2}(?::?[0-5]\\d(?::?[0-5]\\d)?)?)?",""", """    r"(?:[Zz]|[+-]\\d{2}(?::?\\d{2}(?::?\\d{2}(?:\\.\\d+)?)?)?)?",""")], ["C20"]),
+    ("fixrevert_d16b_time_conditions_of_unresolved_tree", [(CE, """                tree = expand_time_conditions(AhbExpressionResolverTransformer().transform(tree))""", """                tree = AhbExpressionResolverTransformer().transform(tree)""")], ["C06"]),
+    ("fixrevert_d18a_cer_resolver_own_format", [("src/ahbicht/expressions/package_expansion.py", """            return PackageKeyConditionExpressionMapping(
+                edifact_format=evaluatable_data.edifact_format,
+                package_expression=package_expression,""", """            return PackageKeyConditionExpressionMapping(
+                edifact_format=self.edifact_format,
+                package_expression=package_expression,""")], ["C10"]),
+    ("fixrevert_d18b_json_file_mixed_formats", [("src/ahbicht/expressions/package_expansion.py", """            if edifact_format is None or mapping.edifact_format == edifact_format""", """            if True""")], ["C10"]),
     ("fixrevert_d7_931_midnight", [(TAG, "    if utc_offset == timedelta(0):", "    if utc_offset == timedelta(0) and date_time.time() == time(0, 0, 0):")], ["C20"]),
     ("fixrevert_d8_overflow", [(TAG, "    except OverflowError as overflow_error:", "    except ZeroDivisionError as overflow_error:")], ["C20"]),
     ("fixrevert_d4_soll_flag", [(VAL, """            tasks.append(
